@@ -5,35 +5,37 @@
    the next quiescent point has released both halves of the connection.  "Observed" is logged by the
    harness pipes at the moment the library's read or write returned the end / the error.         *)
 EXTENDS DeliveryAbs, TraceCommon
-VARIABLES l, scen, viol, obs, how, relR, relW, lastFault, obsAtCall, incall
-tvars == <<avars, l, scen, viol, obs, how, relR, relW, lastFault, obsAtCall, incall>>
-lv == <<obs, how, relR, relW, lastFault, obsAtCall, incall>>
+VARIABLES l, scen, viol, obs, how, relR, relW, lastFault, obsAtCall, incall, mayErr, faulted
+tvars == <<avars, l, scen, viol, obs, how, relR, relW, lastFault, obsAtCall, incall, mayErr, faulted>>
+lv == <<obs, how, relR, relW, lastFault, obsAtCall, incall, mayErr, faulted>>
 E == Rec[l]
 Flag(code) == Report(scen, code, l) /\ viol' = viol \cup {code}
 NoFlag == UNCHANGED viol
 Step(evname) == l <= NRec /\ E.ev = evname /\ l' = l + 1
-TInit == AInit /\ l = 1 /\ scen = 0 /\ viol = {} /\ obs = {} /\ how = EmptyMap /\ relR = {} /\ relW = {} /\ lastFault = "none" /\ obsAtCall = {} /\ incall = FALSE
+TInit == AInit /\ l = 1 /\ scen = 0 /\ viol = {} /\ obs = {} /\ how = EmptyMap /\ relR = {} /\ relW = {} /\ lastFault = "none" /\ obsAtCall = {} /\ incall = FALSE /\ mayErr = {} /\ faulted = {}
 TReset == Step("reset") /\ scen' = E.scen /\ stype' = E.sock /\ conn' = {} /\ ident' = <<>> /\ pend' = <<>> /\ cut' = <<>> /\ credit' = 0
-          /\ obs' = {} /\ how' = EmptyMap /\ relR' = {} /\ relW' = {} /\ lastFault' = "none" /\ obsAtCall' = {} /\ incall' = FALSE /\ UNCHANGED viol
+          /\ obs' = {} /\ how' = EmptyMap /\ relR' = {} /\ relW' = {} /\ lastFault' = "none" /\ obsAtCall' = {} /\ incall' = FALSE /\ mayErr' = {} /\ faulted' = {} /\ UNCHANGED viol
 TAttachRet == Step("attach_ret") /\ UNCHANGED <<scen, lv>> /\ NoFlag /\ (IF E.res = "ok" THEN DoAdmit(E.c, E.id) ELSE UNCHANGED avars)
 TWrote == Step("peer_wrote") /\ UNCHANGED <<scen, lv>> /\ NoFlag /\ DoWrote(E.c, E.m)
-TBytes == Step("peer_bytes") /\ UNCHANGED <<stype, conn, ident, pend, cut, scen, lv>> /\ credit' = credit + 1 /\ NoFlag
-TCut == Step("peer_cut") /\ UNCHANGED <<scen, obs, how, relR, relW, obsAtCall, incall>> /\ NoFlag /\ DoCut(E.c, IF E.kind = "eof" THEN "eof" ELSE "err") /\ lastFault' = E.kind
+\* a connection that ends may surface ONE recv error, however many fault events (close, reset, broken pipe) it suffers
+Allow(c) == mayErr' = (IF c \in faulted THEN mayErr ELSE mayErr \cup {c}) /\ faulted' = faulted \cup {c}
+TBytes == Step("peer_bytes") /\ UNCHANGED <<stype, conn, ident, pend, cut, credit, scen, obs, how, relR, relW, lastFault, obsAtCall, incall>> /\ Allow(E.c) /\ NoFlag
+TCut == Step("peer_cut") /\ UNCHANGED <<scen, obs, how, relR, relW, obsAtCall, incall>> /\ NoFlag /\ DoCut(E.c, IF E.kind = "eof" THEN "eof" ELSE "err") /\ lastFault' = E.kind /\ Allow(E.c)
 TPipe == Step("pipe") /\ UNCHANGED <<scen, obs, how, relR, relW, obsAtCall, incall>> /\ NoFlag /\
-   IF E.what = "break" THEN DoCut(E.c, "err") /\ lastFault' = "wbreak" ELSE UNCHANGED <<avars, lastFault>>
-TObserved == Step("observed") /\ UNCHANGED <<avars, scen, relR, relW, lastFault, obsAtCall, incall>> /\ NoFlag
+   IF E.what = "break" THEN DoCut(E.c, "err") /\ lastFault' = "wbreak" /\ Allow(E.c) ELSE UNCHANGED <<avars, lastFault, mayErr, faulted>>
+TObserved == Step("observed") /\ UNCHANGED <<avars, scen, relR, relW, lastFault, obsAtCall, incall, mayErr, faulted>> /\ NoFlag
    /\ obs' = obs \cup {E.c} /\ how' = IF E.c \in DOMAIN how THEN how ELSE Put(how, E.c, E.how)
-TReleased == Step("released") /\ UNCHANGED <<avars, scen, obs, how, lastFault, obsAtCall, incall>> /\ NoFlag
+TReleased == Step("released") /\ UNCHANGED <<avars, scen, obs, how, lastFault, obsAtCall, incall, mayErr, faulted>> /\ NoFlag
    /\ relR' = (IF E.half = "r" THEN relR \cup {E.c} ELSE relR) /\ relW' = (IF E.half = "w" THEN relW \cup {E.c} ELSE relW)
-TRecvRet == Step("recv_ret") /\ UNCHANGED <<stype, conn, ident, pend, cut, scen, lv>> /\
+TRecvRet == Step("recv_ret") /\ UNCHANGED <<avars, scen, obs, how, relR, relW, lastFault, obsAtCall, incall, faulted>> /\
    IF E.res = "err" THEN
-      (IF credit > 0 THEN credit' = credit - 1 /\ NoFlag
-       ELSE IF \E c \in conn : Pend(c) # <<>> /\ ~WellFormed(stype, Head(Pend(c))) THEN UNCHANGED credit /\ NoFlag
-       ELSE IF DOMAIN cut # {} THEN UNCHANGED credit /\ Flag("C16/error-repeated:" \o stype \o ":" \o lastFault)
-       ELSE UNCHANGED credit /\ NoFlag)
-   ELSE UNCHANGED credit /\ NoFlag
-TSendCall == Step("send_call") /\ UNCHANGED <<avars, scen, obs, how, relR, relW, lastFault>> /\ NoFlag /\ obsAtCall' = obs /\ incall' = TRUE
-TSendRet == Step("send_ret") /\ UNCHANGED <<avars, scen, obs, how, relR, relW, lastFault, obsAtCall>> /\ NoFlag /\ incall' = FALSE
+      (IF mayErr # {} THEN mayErr' = mayErr \ {CHOOSE c \in mayErr : TRUE} /\ NoFlag
+       ELSE IF \E c \in conn : Pend(c) # <<>> /\ ~WellFormed(stype, Head(Pend(c))) THEN UNCHANGED mayErr /\ NoFlag
+       ELSE IF faulted # {} THEN UNCHANGED mayErr /\ Flag("C16/error-repeated:" \o stype \o ":" \o lastFault)
+       ELSE UNCHANGED mayErr /\ NoFlag)
+   ELSE UNCHANGED mayErr /\ NoFlag
+TSendCall == Step("send_call") /\ UNCHANGED <<avars, scen, obs, how, relR, relW, lastFault, mayErr, faulted>> /\ NoFlag /\ obsAtCall' = obs /\ incall' = TRUE
+TSendRet == Step("send_ret") /\ UNCHANGED <<avars, scen, obs, how, relR, relW, lastFault, obsAtCall, mayErr, faulted>> /\ NoFlag /\ incall' = FALSE
 \* an application message written to a connection whose end the socket had already observed when the send began
 TWire == Step("wire") /\ UNCHANGED <<avars, scen, lv>> /\
    IF E.k = "msg" /\ incall /\ E.c \in obsAtCall THEN Flag("C16/send-routed-to-dead-peer:" \o stype \o ":" \o how[E.c]) ELSE NoFlag
